@@ -29,3 +29,15 @@ extern "C" void expect_geom2() {
   clip[0].push_back(Point64((int64_t)200, (int64_t)200)); clip[0].push_back(Point64((int64_t)220, (int64_t)200)); clip[0].push_back(Point64((int64_t)210, (int64_t)220));
   run(subj, clip, ClipType::Difference);
 }
+extern "C" void expect_geom3() {
+  Paths64 subj(1), clip(1);
+  subj[0].push_back(Point64((int64_t)26, (int64_t)3)); subj[0].push_back(Point64((int64_t)1, (int64_t)16)); subj[0].push_back(Point64((int64_t)29, (int64_t)4));
+  clip[0].push_back(Point64((int64_t)16, (int64_t)9)); clip[0].push_back(Point64((int64_t)20, (int64_t)21)); clip[0].push_back(Point64((int64_t)14, (int64_t)1));
+  run(subj, clip, ClipType::Difference);
+}
+extern "C" void expect_geom4() {
+  Paths64 subj(1), clip(1);
+  const int64_t s[5][2] = {{29, 37}, {17, 26}, {18, 46}, {23, 6}, {13, 42}}, c[5][2] = {{43, 14}, {21, 38}, {15, 2}, {50, 36}, {4, 17}};
+  for (int i = 0; i < 5; ++i) { subj[0].push_back(Point64(s[i][0], s[i][1])); clip[0].push_back(Point64(c[i][0], c[i][1])); }
+  run(subj, clip);
+}
